@@ -135,9 +135,8 @@ def writer_effects():
             ("destination grows by exactly n", eq(writer_out(num, p, w), writer_out(num, p, w, entry=True) + num.aff(("arg", 3, "n")))),
             ("source advances by exactly n", eq(mem_aff(num, p, g_adv(("arg", 2, "bit_read"))), num.aff(g_adv(("arg", 2, "bit_read"))) + num.aff(("arg", 3, "n"))))],
             "copy_from(r, n): out' = out + n and r advances by n")
-    bw = ("arg", 1, "buf_bit_writer")
-    for nm in ("flush_be", "flush_le"):
-        def goals(num, p, w, bw=bw):
+    for e in ("be", "le"):
+        def goals(num, p, w, bw=SELF):
             s0 = num.aff(fieldkey(bw, "space_left_in_buffer"))
             s1 = mem_aff(num, p, fieldkey(bw, "space_left_in_buffer"))
             dww = mem_aff(num, p, G_WW) - num.aff(G_WW)
@@ -146,7 +145,7 @@ def writer_effects():
                     ("buffer is empty afterwards (a second flush writes nothing)", eq(s1, const(w))),
                     ("pads to the next word boundary: one word iff bits were pending",
                      ("or", eq(dww, const(1)) + [le(s0, const(w - 1))], eq(dww, const(0)) + eq(s0, const(w))))]
-        E["writer." + nm] = Effect(None, goals, "flush: Ok(x) => x = W - s, s' = W, exactly one word written iff x != 0")
+        E["writer.%s.flush" % e] = Effect(None, goals, "flush: Ok(x) => x = W - s, s' = W, exactly one word written iff x != 0")
     return E
 
 
